@@ -988,3 +988,86 @@ func (c *Ctx) retainedArgsFresh(r *Result, rule string, callerPkg string, sel fu
 	}
 	return n
 }
+
+func init() {
+	reg := registry["C12"]
+	reg.Meta.Rules["C12.9"] = "a datatype description is copied whole: where the root package builds a core.DatatypeMessage from a datatypeInfo (class and size taken from it), the class bit field is taken from the same info too - it carries the sign flag, byte order and padding of the base type (a vlen of int32 whose base message loses the sign bit reads back as uint32)"
+	reg.Rules = append(reg.Rules, func(c *Ctx, r *Result) {
+		n := 0
+		for _, fn := range c.LibFuncs() {
+			if shortPkg(fnPkgPath(fn)) != "hdf5" {
+				continue
+			}
+			instrs(fn, func(in ssa.Instruction) {
+				al, ok := in.(*ssa.Alloc)
+				if !ok || typeShort(al.Type()) != "*core.DatatypeMessage" {
+					return
+				}
+				// field -> (info field name, info object)
+				type src struct {
+					field string
+					obj   ssa.Value
+				}
+				from := map[string]src{}
+				for _, ref := range *al.Referrers() {
+					fa, ok := ref.(*ssa.FieldAddr)
+					if !ok {
+						continue
+					}
+					f, _ := fieldOfAddr(fa)
+					if f == nil {
+						continue
+					}
+					for _, r2 := range *fa.Referrers() {
+						st, ok := r2.(*ssa.Store)
+						if !ok || st.Addr != ssa.Value(fa) {
+							continue
+						}
+						v := stripConv(st.Val)
+						if ld, isLd := isLoad(v); isLd {
+							if sfa, isFA := ld.X.(*ssa.FieldAddr); isFA {
+								if sf, base := fieldOfAddr(sfa); sf != nil && strings.HasSuffix(typeShort(base.Type()), "datatypeInfo") {
+									from[f.Name()] = src{sf.Name(), base}
+								}
+							}
+						}
+					}
+				}
+				cl, hasClass := from["Class"]
+				if !hasClass || cl.field != "class" {
+					return
+				}
+				// only messages that are serialised (handed to core.EncodeDatatypeMessage, possibly through a phi)
+				encoded := false
+				var reach func(v ssa.Value, d int)
+				reach = func(v ssa.Value, d int) {
+					if d > 3 || v.Referrers() == nil {
+						return
+					}
+					for _, ref := range *v.Referrers() {
+						switch x := ref.(type) {
+						case *ssa.Call:
+							if c.calleeName(x) == "core.EncodeDatatypeMessage" {
+								encoded = true
+							}
+						case *ssa.Phi:
+							reach(x, d+1)
+						}
+					}
+				}
+				reach(al, 0)
+				if !encoded {
+					return
+				}
+				n++
+				fb := c.FB(fn)
+				bits, hasBits := from["ClassBitField"]
+				ok2 := hasBits && bits.field == "classBitField" && fb.canon(bits.obj) == fb.canon(cl.obj)
+				r.Check(ok2, "C12.9", c.Name(fn)+"#datatype-message-takes-class-bits-from-info", c.InstrPos(al), "the message takes its Class from a datatypeInfo; its ClassBitField must come from the same datatypeInfo")
+			})
+		}
+		if n == 0 {
+			r.Hold("C12.9", "hdf5#datatype-messages-built-by-handlers", "", "no core.DatatypeMessage is assembled field by field from a datatypeInfo outside the registered handlers' own encoders")
+		}
+	})
+}
